@@ -26,11 +26,17 @@ def known_names():
 
 
 def contains_return(node):
-    for n in ast.walk(node):
-        if isinstance(n, (ast.FunctionDef, ast.Lambda)) and n is not node:
+    """Does the node contain a `return` of its own (not one of a nested def / lambda)?"""
+    stack = [node]
+    first = True
+    while stack:
+        n = stack.pop()
+        if isinstance(n, (ast.FunctionDef, ast.AsyncFunctionDef, ast.Lambda)) and not first:
             continue
+        first = False
         if isinstance(n, ast.Return):
             return True
+        stack.extend(ast.iter_child_nodes(n))
     return False
 
 
@@ -41,7 +47,7 @@ def inlinable(fnode):
     for n in ast.walk(fnode):
         if isinstance(n, (ast.Yield, ast.YieldFrom, ast.Global, ast.Nonlocal, ast.Await)):
             return False
-        if isinstance(n, (ast.FunctionDef, ast.AsyncFunctionDef, ast.ClassDef)) and n is not fnode:
+        if isinstance(n, (ast.AsyncFunctionDef, ast.ClassDef)) and n is not fnode:
             return False
         if isinstance(n, (ast.For, ast.While, ast.Try, ast.With)) and contains_return(n):
             return False
@@ -89,6 +95,11 @@ class _Rename(ast.NodeTransformer):
     def visit_arg(self, n):
         return n
 
+    def visit_FunctionDef(self, n):
+        if n.name in self.mapping:
+            n.name = self.mapping[n.name]
+        return self.generic_visit(n)
+
 
 def simple_arg(a):
     if isinstance(a, (ast.Name, ast.Constant)):
@@ -107,14 +118,19 @@ def assigned_names(fnode):
     for n in ast.walk(fnode):
         if isinstance(n, ast.Name) and isinstance(n.ctx, (ast.Store, ast.Del)):
             out.add(n.id)
+        elif isinstance(n, (ast.FunctionDef, ast.AsyncFunctionDef)) and n is not fnode:
+            out.add(n.name)
     return out
 
 
 _counter = [0]
 
 
-def build_inline(helper, call, bound_self):
-    """(prelude statements, replacement expression) for one call of `helper`; None if arguments do not fit."""
+def build_inline(helper, call, bound_self, target_names=None, host_names=frozenset()):
+    """(prelude statements, replacement expression) for one call of `helper`; None if arguments do not fit.
+
+    target_names: when the call statement is `x = helper(...)` / `x, y = helper(...)` and the helper simply returns
+    local names, those locals are renamed to the targets and no result variable is needed (replacement None)."""
     params = [a.arg for a in helper.args.args]
     args = list(call.args)
     if bound_self:
@@ -140,7 +156,13 @@ def build_inline(helper, call, bound_self):
     _counter[0] += 1
     tag = "__inl%d_" % _counter[0]
     assigned = assigned_names(helper)
-    mapping = {nm: tag + nm for nm in assigned if nm != self_name}
+    # helper locals keep their names unless the host already uses the name (moved code stays recognisable)
+    mapping = {nm: tag + nm for nm in assigned if nm != self_name and (nm in host_names or nm in params)}
+    rn = direct_return_names(helper) if target_names else None
+    direct = rn is not None and len(rn) == len(target_names)
+    if direct:
+        for loc, tgt in zip(rn, target_names):
+            mapping[loc] = tgt
     exprs = {}
     prelude = []
     for p in params:
@@ -157,6 +179,9 @@ def build_inline(helper, call, bound_self):
     if body and isinstance(body[0], ast.Expr) and isinstance(body[0].value, ast.Constant) and isinstance(body[0].value.value, str):
         body = body[1:]
     ren = _Rename(mapping, exprs)
+    if direct:
+        body = [ren.visit(st) for st in body[:-1]]
+        return prelude + body, None
     if len(body) == 1 and isinstance(body[0], ast.Return) and not prelude:
         val = body[0].value if body[0].value is not None else ast.Constant(value=None)
         return [], ren.visit(copy.deepcopy(val))
@@ -168,6 +193,22 @@ def build_inline(helper, call, bound_self):
         repl = ast.Constant(value=None)
     body = [ren.visit(s) for s in body]
     return prelude + body, repl
+
+
+def direct_return_names(helper):
+    """If the helper ends with `return a` / `return a, b` of plain local names (and has no other return), those names."""
+    body = helper.body
+    if not body or not isinstance(body[-1], ast.Return) or body[-1].value is None:
+        return None
+    if contains_return(ast.Module(body=body[:-1], type_ignores=[])):
+        return None
+    v = body[-1].value
+    locs = assigned_names(helper)
+    if isinstance(v, ast.Name) and v.id in locs:
+        return [v.id]
+    if isinstance(v, ast.Tuple) and all(isinstance(e, ast.Name) and e.id in locs for e in v.elts) and len({e.id for e in v.elts}) == len(v.elts):
+        return [e.id for e in v.elts]
+    return None
 
 
 class _CallReplacer(ast.NodeTransformer):
@@ -227,10 +268,22 @@ def inline_in_function(fnode, resolver, max_rounds=4):
                     helper, bound_self = r
                     if helper is fnode or not inlinable(helper):
                         continue
-                    built = build_inline(helper, c, bound_self)
+                    tnames = None
+                    if isinstance(s, ast.Assign) and s.value is c and len(s.targets) == 1:
+                        t0 = s.targets[0]
+                        if isinstance(t0, ast.Name):
+                            tnames = [t0.id]
+                        elif isinstance(t0, (ast.Tuple, ast.List)) and all(isinstance(e, ast.Name) for e in t0.elts):
+                            tnames = [e.id for e in t0.elts]
+                    built = build_inline(helper, c, bound_self, tnames, host_names=frozenset(assigned_names(fnode)) | {a.arg for a in fnode.args.args})
                     if built is None:
                         continue
                     prelude, repl = built
+                    if repl is None:
+                        stmts[i:i + 1] = prelude or [ast.copy_location(ast.Pass(), s)]
+                        changed = True
+                        total += 1
+                        return True
                     if prelude and (in_comprehension_or_lambda(s, c) or isinstance(s, ast.While)):
                         continue
                     rep = _CallReplacer(c, repl)
@@ -306,7 +359,32 @@ def inline_new_helpers(prog):
                     return f.node, False
             return None
         total += inline_in_function(host.node, resolver)
-    return {"enabled": True, "new_helpers": sorted(["%s.%s" % k for k in new_methods] + ["%s:%s" % k for k in new_functions]), "inlined_calls": total}
+    # a helper whose every call was inlined is dead code for the analysis: drop it, so that inventories and
+    # handler scans see its statements exactly once (in the hosts)
+    removed = []
+    remaining = set()
+    for host in prog.all_functions(include_nested=False):
+        for n in ast.walk(host.node):
+            if isinstance(n, ast.Call):
+                if isinstance(n.func, ast.Attribute):
+                    remaining.add(n.func.attr)
+                elif isinstance(n.func, ast.Name):
+                    remaining.add(n.func.id)
+            elif isinstance(n, ast.Attribute):
+                remaining.add(n.attr)   # bound-method references such as callbacks
+    for (cn, name), f in list(new_methods.items()):
+        if name not in remaining or all(name not in {x.func.attr for x in ast.walk(h.node) if isinstance(x, ast.Call) and isinstance(x.func, ast.Attribute)}
+                                         for h in prog.all_functions(include_nested=False) if h is not f):
+            c = prog.classes.get(cn)
+            if c is not None and name in c.methods:
+                del c.methods[name]
+                removed.append("%s.%s" % (cn, name))
+    for (rel, name), f in list(new_functions.items()):
+        used = any(isinstance(x, ast.Name) and x.id == name for h in prog.all_functions(include_nested=False) if h is not f for x in ast.walk(h.node))
+        if not used and name in prog.modules[rel].functions:
+            del prog.modules[rel].functions[name]
+            removed.append("%s:%s" % (rel, name))
+    return {"enabled": True, "new_helpers": sorted(["%s.%s" % k for k in new_methods] + ["%s:%s" % k for k in new_functions]), "inlined_calls": total, "removed": removed}
 
 
 def write_known_names(prog):
